@@ -5,7 +5,8 @@ ID = "C19"
 LEAN_MODULES = ["Gv.Props.C19"]
 REQUIRED_THEOREMS = ["Gv.Props.C19." + n for n in [
     "queries_pure", "copies_own_data", "sampling_shares", "allocRows_disjoint_and_preserves", "allocRows_obs",
-    "write_frame", "writes_frame", "mutating_copy_preserves_original"]]
+    "write_frame", "writes_frame", "mutating_copy_preserves_original",
+    "typed_facts_wellformed", "queries_pure_typed", "copies_own_data_typed", "sampling_shares_typed", "pwaligner_isolated_typed"]]
 LEVEL_TEXT = ("Lean theorems (kernel evaluation) over mutation facts regenerated from the source on every run: no listed query "
               "reaches a write to sequence data through its input (call-graph closure), every listed copy operation hands only "
               "freshly allocated buffers to the new object; plus ownership-model theorems: freshly allocated rows share no buffer "
